@@ -25,4 +25,39 @@ PROPS = {
         "min_counters": {"types.pairs": 16384},
         "exhaustive_all": False,
     },
+    "C02": {
+        "title": "Bytes on the wire follow the RFC layouts (independent reference codec)",
+        "profiles": ["dev"],
+        "rule": ("forward: library bytes == bytes of the independent reference codec (refstun::wire) for the same "
+                 "logical message; backward: reference bytes with noise (random / all-ones / each of 256 byte values) "
+                 "in every ignorable position (padding, reserved/RFFU bits, address first octet, ERROR-CODE upper "
+                 "21 bits, CHANGE-REQUEST reserved bits) decode, with validation, to the same logical message. "
+                 "Exhaustive: 16384 (method,class) pairs, 65536 MessageType::from inputs, 400 error codes; "
+                 "XOR: each transaction-id byte flipped separately. RFC 5769 / RFC 8489 B.1 vectors are "
+                 "reproduced byte-for-byte by the reference first. Non-trivial = >=1 attribute; distinct = hash "
+                 "of reference bytes."),
+        "assumptions": [STABLE,
+                        "last PASSWORD-ALGORITHMS entry is not padded inside the attribute value (RFC text ambiguous; "
+                        "reference follows the library on encode)",
+                        "RESPONSE-PORT is encoded with attribute length 2 (RFC 5780 wording ambiguous)"],
+        "min_counters": {"types.pairs": 16384, "u16.values": 65536, "vectors.reference-reproduces": 5,
+                         "backward.noise": 1000, "xor.txid-byte-flips": 1000},
+    },
+    "C09": {
+        "title": "Decoding admits attributes after integrity/FINGERPRINT only per the RFC rule",
+        "profiles": ["dev"],
+        "rule": ("every sequence over {ordinary, MESSAGE-INTEGRITY, MESSAGE-INTEGRITY-SHA256, FINGERPRINT} up to the "
+                 "exhaustive length (quick 6, thorough 8 = 87,380 sequences) plus sampled longer ones; wire bytes built "
+                 "by the reference (unique SOFTWARE serial per ordinary attribute, MAC/CRC per RFC at that position); "
+                 "variants: all checksums right, every/each inadmissible one wrong, each admitted one wrong; decoded "
+                 "under all 16 option combinations and the context-less decoder; oracle = the four-line admission rule "
+                 "of the property (wire::admit). Non-trivial = sequence contains at least one of MI/SHA256/FP; distinct "
+                 "= hash of the kind sequence."),
+        "assumptions": ["validation enabled without a key while an admitted integrity attribute is present: outcome not "
+                        "decided by the statement, only no-panic is checked",
+                        "the agent's private iterator implementing the same rule is exercised through the client "
+                        "simulations (C07/C08/C10), not here"],
+        "min_counters": {"sequences.enumerated": 5461, "variants.admitted-wrong": 1000, "variants.inadmissible-wrong": 1000},
+        "exhaustive_all": True,
+    },
 }
